@@ -107,26 +107,26 @@ Qed.
 
 Definition Out (r : result) : Prop := forall o sc', r = Done (o, sc') -> wf_out o.
 
-Definition B_pw f := forall p sc, Out (pw f p sc).
+Definition B_pw f := forall k p sc, Out (pw f k p sc).
 Definition B_ew f := forall e sc, Out (ew f e sc).
 Definition B_iw f := forall i sc, Out (iw f i sc).
-Definition B_mt f := forall p e sc, Out (mt f p e sc).
-Definition B_tr f := forall p exp sc, Out (tr f p exp sc).
+Definition B_mt f := forall k p e sc, Out (mt f k p e sc).
+Definition B_tr f := forall k p exp sc, Out (tr f k p exp sc).
 Definition B_all f := B_pw f /\ B_ew f /\ B_iw f /\ B_mt f /\ B_tr f.
 
 Definition needs_isolation (len : nat) (e : expression) : bool :=
   b_use_isolating b && Nat.ltb 1 len && negb (isolation_exempt e).
 
 (* element by element: what Pattern::write wrote *)
-Inductive loop_out (f : nat) (p : pattern) (len : nat) : list pattern_element -> list otoken -> Prop :=
-| lo_stop els : loop_out f p len els []
+Inductive loop_out (f : nat) (k : option pkey) (p : pattern) (len : nat) : list pattern_element -> list otoken -> Prop :=
+| lo_stop els : loop_out f k p len els []
 | lo_text value rest o :
-    loop_out f p len rest o ->
-    loop_out f p len (TextElement value :: rest) (Txt (apply_transform transform value) :: o)
+    loop_out f k p len rest o ->
+    loop_out f k p len (TextElement value :: rest) (Txt (apply_transform transform value) :: o)
 | lo_placeable e rest v o sc0 sc1 :
-    mt f p e sc0 = Done (v, sc1) -> balanced v ->
-    loop_out f p len rest o ->
-    loop_out f p len (PlaceableElement e :: rest) (wrap (needs_isolation len e) v ++ o).
+    mt f k p e sc0 = Done (v, sc1) -> balanced v ->
+    loop_out f k p len rest o ->
+    loop_out f k p len (PlaceableElement e :: rest) (wrap (needs_isolation len e) v ++ o).
 
 Lemma write_ref_error_out exp sc : Out (write_ref_error exp sc).
 Proof.
@@ -134,10 +134,10 @@ Proof.
   intros [= <- <-]. apply wf_braced.
 Qed.
 
-Lemma pattern_loop_out f p len :
+Lemma pattern_loop_out f k p len :
   B_mt f -> forall els sc o sc',
-  pattern_loop overflow_checks transform b (mt f p) len els sc = Done (o, sc') ->
-  wf_out o /\ loop_out f p len els o.
+  pattern_loop overflow_checks transform b (mt f k p) len els sc = Done (o, sc') ->
+  wf_out o /\ loop_out f k p len els o.
 Proof.
   intros Hmt. induction els as [|elem rest IH]; intros sc o sc'; cbn [pattern_loop].
   - intros [= <- <-]. split; [apply wf_nil | constructor].
@@ -152,7 +152,7 @@ Proof.
       apply obind_done in H as ([o1 s1] & E1 & H).
       apply obind_done in H as ([o2 s2] & E2 & H). injection H as <- <-.
       destruct (IH _ _ _ E2) as [W2 L2].
-      pose proof (Hmt _ _ _ _ _ E1) as W1.
+      pose proof (Hmt _ _ _ _ _ _ E1) as W1.
       fold (needs_isolation len expression).
       change ((if needs_isolation len expression then [TFSI] else []) ++ o1 ++
               (if needs_isolation len expression then [TPDI] else []) ++ o2)
@@ -170,12 +170,12 @@ Qed.
 
 Lemma out_pw f : B_mt f -> B_pw (S f).
 Proof.
-  intros Hmt p sc o sc'. rewrite pw_S. intros H. eapply pattern_loop_out; eassumption.
+  intros Hmt k p sc o sc'. rewrite pw_S. intros H. eapply pattern_loop_out; eassumption.
 Qed.
 
 Lemma out_mt f : B_ew f -> B_mt (S f).
 Proof.
-  intros Hew p e sc o sc'. rewrite mt_S. cbv zeta. intros H.
+  intros Hew k p e sc o sc'. rewrite mt_S. cbv zeta. intros H.
   apply obind_done in H as ([o1 s1] & E1 & H).
   pose proof (Hew _ _ _ _ E1) as W1.
   destruct (sc_dirty s1); injection H as <- <-; [apply wf_app; [exact W1 | apply wf_braced] | exact W1].
@@ -183,8 +183,8 @@ Qed.
 
 Lemma out_tr f : B_pw f -> B_tr (S f).
 Proof.
-  intros Hpw p exp sc o sc'. rewrite tr_S.
-  destruct (pattern_mem p (sc_travelled sc)); [intros [= <- <-]; apply wf_braced|].
+  intros Hpw k p exp sc o sc'. rewrite tr_S.
+  destruct (key_mem k (sc_travelled sc)); [intros [= <- <-]; apply wf_braced|].
   cbv zeta. intros H. apply obind_done in H as ([o1 s1] & E1 & H). injection H as <- <-.
   eapply Hpw, E1.
 Qed.
